@@ -4,6 +4,7 @@ property's list) are listed + verified through the real public Storage API and b
 equivalence with the declarative Healthy predicate is the theorem; the age check is run through the real
 check_backups under a fake clock around the boundary."""
 import calendar
+import shutil
 import os
 import time
 from concurrent.futures import ThreadPoolExecutor
@@ -271,6 +272,9 @@ def run(ctx):
                           "the predicate says %s (%d storages differ)" % (labels or "no corruption", r[1:3] if r[0] == 0 else "listing failed", m[1:3], ndiff),
                           {"corruptions": labels, "storage": real_spec(st), "model_storage": sexp.dumps(model_storage(st))})
         age_part(ctx, sb)
+        if not ctx.violations:
+            build.ensure_vsb()
+            e2e_age(ctx, sb)
     finally:
         sb.close()
     runs_part(ctx)
@@ -412,6 +416,90 @@ def age_part(ctx, sb):
         if nempty != m[3]:
             ctx.violation("age-model", "correspondence age-check (empty groups) no longer checks: model %d, implementation %d (%s)" % (m[3], nempty, desc),
                           {"groups": gs}, failing_input=False)
+
+
+def e2e_age(ctx, sb):
+    """the staleness alarm through the real `vsb upload`: local storage and an already synced cloud copy (provider emulator), the threshold in the
+    configuration, the clock faked; the alarm lines for the local storage and for the cloud vs the alarm model"""
+    import hashlib
+    from vlib import cloud as cl
+    rng = ctx.rng
+    xh = hashlib.sha512(b"x").hexdigest()
+    cases = []
+    for unit, usec in (("m", 60), ("h", 3600), ("d", 86400)):
+        k = rng.choice([1, 2, 7, 30])
+        thr = k * usec
+        for delta in (-1, 0, 1):
+            cases.append(([[NOW - thr - delta - 7000, NOW - thr - delta]], thr, "%d%s" % (k, unit)))
+    cases.append(([[NOW - 3 * 86400], []], 86400, "1d"))                      # empty trailing group: the newest backup is in the older group
+    cases.append(([[NOW - 3 * 86400], []], 7 * 86400, "7d"))
+    cases.append(([[NOW - 100]], None, None))
+    if ctx.tier == "thorough":
+        for _ in range(40):
+            gs, t = [], NOW - rng.randrange(0, 40 * 86400)
+            for _ in range(rng.randrange(1, 4)):
+                g = []
+                for _ in range(rng.randrange(0, 3)):
+                    g.append(t)
+                    t += rng.randrange(1, 3 * 86400)
+                gs.append(g)
+            k, (unit, usec) = rng.choice([1, 2, 7, 30]), rng.choice([("m", 60), ("h", 3600), ("d", 86400)])
+            cases.append((gs, k * usec, "%d%s" % (k, unit)))
+    providers = ["dropbox", "yandex", "google"]
+    try:
+        for n, (gs, thr, thr_s) in enumerate(cases):
+            spec_groups, days, ok = [], set(), True
+            for gi, g in enumerate(gs):
+                d = (g[0] - BASE_DAY) // 86400 if g else max(days | {0}) + 1 + gi
+                if d in days or d < 0 or (g and any((t - BASE_DAY) // 86400 < d for t in g)):
+                    ok = False
+                    break
+                days.add(d)
+                spec_groups.append((gname(d), [{"name": time.strftime("%Y.%m.%d-%H:%M:%S", time.gmtime(t)),
+                                                "manifest": [{"unique": True, "hash": xh, "fp": [1, 2, 3], "size": 1, "path_hex": b"/p".hex()}],
+                                                "entries": [{"type": "file", "path_hex": b"p".hex(), "data_hex": b"x".hex()}]} for t in g]))
+            if not ok or [x for x, _ in spec_groups] != sorted(x for x, _ in spec_groups) or any(g != sorted(g) for g in gs) or not any(gs):
+                continue
+            st = sb.path("e2e-st%d" % n)
+            sb.write_storage({"groups": [{"name": gn, "backups": bs} for gn, bs in spec_groups]}, st)
+            provider = providers[n % 3]
+            cl.write_upload_config(sb, st, provider, max_groups=10, max_age=thr_s)
+            ns = {cl.CLOUD_ROOT: {"type": "folder"}}
+            for gn, bs in spec_groups:
+                ns["%s/%s" % (cl.CLOUD_ROOT, gn)] = {"type": "folder"}
+                for b in bs:
+                    ns["%s/%s/%s.tar.gpg" % (cl.CLOUD_ROOT, gn, b["name"])] = {"type": "file", "content_hex": b"synced".hex()}
+            emu = cl.Emu(sb.path("e2e-emu%d" % n), init={"dropbox": ns, "yandex": ns, "google": ns})
+            try:
+                r = cl.run_upload(sb, emu, now=NOW, timeout=90)
+            finally:
+                emu.stop()
+            m = model.run_driver([[1301, [gs, NOW, [thr] if thr is not None else []]]])[0]
+            code = m[1]
+            parts = r["out"].split("Checking backups on ")
+            # parts[1] = local storage (listing, verification, check), parts[2] = first cloud listing + sync, parts[3] = final cloud check
+            local_part = parts[1] if len(parts) > 1 else ""
+            cloud_part = parts[-1] if len(parts) > 3 else ""
+            ctx.evaluations += 1
+            ctx.count("e2e-age.%s" % {0: "no-threshold", 1: "fresh", 2: "no-backups", 3: "future", 4: "too-old"}[code])
+            ctx.nontrivial.add(("e2e-age", str(gs), thr))
+            newest = max((t for g in gs for t in g), default=None)
+            want = newest is not None and thr is not None and newest <= NOW and NOW - newest >= thr
+            desc = "provider=%s groups=%s now=%d threshold=%s" % (provider, gs, NOW, thr_s)
+            for side, text in (("local storage", local_part), ("cloud", cloud_part)):
+                alarm = "doesn't have any backup for last" in text
+                if alarm != want:
+                    ctx.violation("e2e-age", "real `vsb upload`: the staleness alarm for the %s is %s although the newest backup is %s s old and the threshold is %s (%s)"
+                                  % (side, "raised" if alarm else "not raised", NOW - newest if newest is not None else None, thr_s, desc),
+                                  {"groups": gs, "threshold": thr_s, "provider": provider, "output": r["out"][-900:]})
+                    return
+                if alarm != (code == 4):
+                    ctx.violation("e2e-age", "correspondence staleness-alarm-end-to-end no longer checks: model code %d, alarm for the %s %s (%s)" % (code, side, alarm, desc),
+                                  {"groups": gs, "threshold": thr_s}, failing_input=False)
+                    return
+            shutil.rmtree(sb.path("e2e-emu%d" % n), ignore_errors=True)
+    finally:
+        cl.kill_agents(sb)
 
 
 def replay(ctx, doc):
